@@ -144,64 +144,16 @@ class H7(H9):
         big, small = (x, y) if sg > 0 else (y, x)
         return big if name.startswith('max') else small
 
-    def ufunc_attr(self, I, x, name):
-        if name in ('less_equal', 'less', 'greater_equal', 'greater',
-                    'equal', 'not_equal'):
-            cop = {'less_equal': ast.LtE, 'less': ast.Lt,
-                   'greater_equal': ast.GtE, 'greater': ast.Gt,
-                   'equal': ast.Eq, 'not_equal': ast.NotEq}[name]()
-
-            def cmp_(other, out=None):
-                if out is not None:
-                    raise Undecided('comparison ufunc with out')
-                o = other.data if isinstance(other, NElem) else other
-                r = I.cmp1(cop, x.data, o, None)
-                return BoolElem(x.space, r)
-            return Builtin('ufuncs.' + name, cmp_)
-        return H9.ufunc_attr(self, I, x, name)
-
-    def on_getattr(self, interp, obj, name):
-        if isinstance(obj, BoolElem):
-            if name == 'ufuncs':
-                return Rec('boolufuncs', logical_not=Builtin(
-                    'logical_not', lambda out=None: obj.invert(out)))
-            if name in ('data', 'asarray'):
-                return obj.data if name == 'data' else Builtin(
-                    'asarray', lambda: obj.data)
-            raise PyRaise('AttributeError')
-        if isinstance(obj, Rec) and name in obj.attrs:
-            return obj.attrs[name]
-        return H9.on_getattr(self, interp, obj, name)
-
-    def on_subscript(self, interp, obj, idx):
-        if isinstance(idx, BoolElem):
-            idx = idx.data
-        return H9.on_subscript(self, interp, obj, idx)
-
 
 def mdiff_depends_any(r, names):
     return any(mdiff._depends(r, t) for t in names)
 
 
-class BoolElem(object):
-    """A boolean-valued element (result of a comparison ufunc)."""
-
-    def __init__(self, space, data):
-        self.space, self.data = space, data
-
-    def invert(self, out=None):
-        r = NA(_np.frompyfunc(lambda v: not bool(v), 1, 1)(self.data.a),
-               self.data.dt)
-        if out is None:
-            return BoolElem(self.space, r)
-        out.data = r
-        return out
+from ..spacemodel import BoolElem  # noqa: E402
 
 
 class I7(SMInterp):
-    def _na_index(self, sl, scope, func):
-        r = SMInterp._na_index(self, sl, scope, func)
-        return r.data if isinstance(r, BoolElem) else r
+    pass
 
 
 # ---------------------------------------------------------------------------
